@@ -56,6 +56,16 @@ def generate(seed, tier):
             for b in range(a, K):
                 wp[a][b] = wp[b][a] = round(0.5 + 1.5 * rng.random(), 3)
         prior_arrays = {"w": wp, "u": [[round(0.5 + 1.5 * rng.random(), 3) for _ in range(K)] for _ in range(N)] if rng.random() < 0.5 else None}
+    if rng.random() < 0.1 and K >= 2:
+        # hard, sparse memberships: every node belongs to one community only (the others exactly 0) and the last
+        # community has exactly ONE member
+        lone = rng.randrange(N)
+        for i, row in enumerate(u):
+            keep = K - 1 if i == lone else rng.randrange(K - 1)
+            for k in range(K):
+                if k != keep:
+                    row[k] = 0.0
+        supply = rng.choice(["u", "both"])
     if rng.random() < 0.12:
         # a valid but badly scaled parametrisation: one community's memberships are tiny but strictly positive
         k = rng.randrange(K)
@@ -98,17 +108,26 @@ def exact_loglik(u, w, N, D, data):
     for e in _all_edges(N, D):
         tot -= _lam(u, w, e) / _kappa(N, len(e))
     for e, a in data:
-        tot += a * (math.log(_lam(u, w, e)) - math.log(_kappa(N, len(e))))
+        lam = _lam(u, w, e)
+        if lam <= 0:
+            return -math.inf  # an observed hyperedge is impossible under (u, w)
+        tot += a * (math.log(lam) - math.log(_kappa(N, len(e))))
     return tot
 
 
 class _Tol:
     """np.allclose with an absolute tolerance that follows the magnitude of the definition (1e-12 at magnitude >= 1)."""
 
-    @staticmethod
-    def close(got, want):
+    # magnitude of the largest term the closed forms add up: max(u)^2 * max(w) (set per call of _check_closed_forms).
+    # The library evaluates sums over pairs as differences of squares, so its rounding error is relative to the LARGEST
+    # term, not to the result (1e-27 next to 0.3 is lost: "equal up to rounding" cannot mean more than that)
+    floor = 0.0
+
+    @classmethod
+    def close(cls, got, want, mult=1.0):
         want = np.asarray(want, dtype=float)
         mx = float(np.max(np.abs(want))) if want.size else 0.0
+        mx = max(mx, cls.floor * mult)
         return np.allclose(got, want, rtol=1e-9, atol=1e-12 * (min(1.0, mx) if mx > 0 else 1.0))
 
 
@@ -117,6 +136,7 @@ def _check_closed_forms(model, u, w, N, D, stats, where):
 
     edges = list(_all_edges(N, D))
     inc = hye_list_to_binary_incidence(edges, shape=(N, len(edges)))
+    _Tol.floor = float(np.max(np.abs(u)) ** 2 * np.max(np.abs(w))) * D * (D - 1) / 2 if u.size and w.size else 0.0
     try:
         lam = np.asarray(model.poisson_params(inc)).ravel()
         ref = np.array([_lam(u, w, e) for e in edges])
@@ -139,10 +159,10 @@ def _check_closed_forms(model, u, w, N, D, stats, where):
             for i in e:
                 deg[i] += m
         got = np.asarray(model.expected_degree(per_node=True)).ravel()
-        if not _Tol.close(got, deg):
+        if not _Tol.close(got, deg, N):
             raise Violation("C15/closed-form/expected_degree[per_node]", {"where": where, "library": short(got.tolist()), "definition": short(deg.tolist())})
         got = float(model.expected_degree(per_node=False))
-        if not _Tol.close(got, deg.mean()):
+        if not _Tol.close(got, deg.mean(), N):
             raise Violation("C15/closed-form/expected_degree[average]", {"where": where, "library": got, "definition": float(deg.mean())})
         # the same for size selections that do not start at 2
         sels = [np.arange(3, D + 1)] if D >= 3 else []
@@ -157,10 +177,10 @@ def _check_closed_forms(model, u, w, N, D, stats, where):
                     for i in e:
                         degs[i] += m
             got = np.asarray(model.expected_degree(per_node=True, d=sel)).ravel()
-            if not _Tol.close(got, degs):
+            if not _Tol.close(got, degs, N):
                 raise Violation("C15/closed-form/expected_degree[per_node,d]", {"where": where, "d": short(sel), "library": short(got.tolist()), "definition": short(degs.tolist())})
             got = float(model.expected_degree(per_node=False, d=sel))
-            if not _Tol.close(got, degs.mean()):
+            if not _Tol.close(got, degs.mean(), N):
                 raise Violation("C15/closed-form/expected_degree[average,d]", {"where": where, "d": short(sel), "library": got, "definition": float(degs.mean())})
         if D >= 3:
             degs = np.zeros(N)
@@ -169,7 +189,7 @@ def _check_closed_forms(model, u, w, N, D, stats, where):
                     for i in e:
                         degs[i] += m
             got = np.asarray(model.degree_sequence(include_dyadic=False, expected=True)).ravel()
-            if not _Tol.close(got, degs):
+            if not _Tol.close(got, degs, N):
                 raise Violation("C15/closed-form/degree_sequence[expected,no-dyadic]", {"where": where, "library": short(got.tolist()), "definition": short(degs.tolist())})
             dims3 = model.dimension_sequence(include_dyadic=False, expected=True)
             want3 = {}
@@ -177,16 +197,16 @@ def _check_closed_forms(model, u, w, N, D, stats, where):
                 if len(e) >= 3:
                     want3[len(e)] = want3.get(len(e), 0.0) + m
             want3 = {d: v for d, v in want3.items() if v > 0}
-            if sorted(int(k) for k in dims3) != sorted(want3) or any(
-                    abs(float(dims3[k]) - want3[int(k)]) > 1e-9 * max(1e-12, want3[int(k)]) for k in dims3):
+            got3 = {int(k): float(v) for k, v in dims3.items()}
+            if any(not _Tol.close(got3.get(d, 0.0), want3.get(d, 0.0), N * N) for d in set(got3) | set(want3)):
                 raise Violation("C15/closed-form/dimension_sequence[no-dyadic]", {"where": where, "library": short({int(k): float(v) for k, v in dims3.items()}), "definition": short(want3)})
         dims = model.dimension_sequence(include_dyadic=True, expected=True)
         want = {}
         for m, e in zip(mean, edges):
             want[len(e)] = want.get(len(e), 0.0) + m
         want = {d: v for d, v in want.items() if v > 0}
-        if sorted(int(k) for k in dims) != sorted(want) or any(
-                abs(float(dims[k]) - want[int(k)]) > 1e-9 * max(1e-12, want[int(k)]) for k in dims):
+        gotd = {int(k): float(v) for k, v in dims.items()}
+        if any(not _Tol.close(gotd.get(d, 0.0), want.get(d, 0.0), N * N) for d in set(gotd) | set(want)):
             raise Violation("C15/closed-form/dimension_sequence", {"where": where, "library": short({int(k): float(v) for k, v in dims.items()}), "definition": short(want)})
         c = float(model.C())
         if abs(c - sum(2 / (d * (d - 1)) for d in range(2, D + 1))) > 1e-12:
